@@ -15,7 +15,7 @@ func init() {
 	register("C01", checkC01)
 	describe("C01", Meta{
 		Technique: "symbolic instruction-field algebra (LAYOUT) comparing, per opcode, the bit slices of current_instruction in the Verilog templates and the instr[a:b] slices of Simulate with the fields the Assembler writes; index-source rule for opcode numbering; must-pass-through (path counting) of requirement bookkeeping behind every hardware-optimisation query",
-		Claim:     "Decides structural decode-agreement clauses of C01 for every opcode type: (a) each slice of current_instruction in the opcode's Verilog templates is the opcode field or exactly one field its Assembler writes (all four mode cases, symbolic in all widths), and each instr[a:b] the simulator's Simulate reads is such a field (Harvard mode); (b) the opcode number emitted by the encoder and by the localparam table is the index in the same Op list, with the opcode-bits width; (c) an opcode whose state machine prunes case arms by querying a requirement set (destregs, sourceregs …) records that set on every path of its HLAssemblerNormalize that accepts a line. A wrong bit-slice index, a swapped field or an incomplete register bookkeeping in any of the ~100 templates is reported. The semantics of each opcode (ALU, flags, timing), ROM/RAM models and threading are not decided.",
+		Claim:     "Decides structural decode-agreement clauses of C01 for every opcode type: (a) each slice of current_instruction in the opcode's Verilog templates is the opcode field or exactly one field its Assembler writes (all four mode cases, symbolic in all widths), and each instr[a:b] the simulator's Simulate reads is such a field (Harvard mode); (b) the opcode number emitted by the encoder and by the localparam table is the index in the same Op list, with the opcode-bits width; (c) an opcode whose state machine prunes case arms by querying a requirement set (destregs, sourceregs …) records that set on every path of its HLAssemblerNormalize that accepts a line. A wrong bit-slice index, a swapped field or an incomplete register bookkeeping in any of the ~100 templates is reported. (OPKIND) a field decoded in Simulate indexes the VM array of the operand kind the Assembler put there (register / input / output). The semantics of each opcode (ALU, flags, timing), ROM/RAM models and threading are not decided.",
 		Note:      "Simulate is compared under mode 'ha' only (VM.Step fetches from Program.Slocs: the simulator is Harvard by construction). Single-bit slices [A] are accepted at the offset of a field whose width can be 1.",
 		DesignRef: "DESIGN.md §1.5, §2 C01",
 	})
@@ -29,7 +29,7 @@ func checkC01(r *core.Run) {
 		return
 	}
 	seen := map[string]bool{}
-	nHdl, nSim, nOps := 0, 0, 0
+	nHdl, nSim, nOps, nKind := 0, 0, 0, 0
 	for _, mode := range layoutModes {
 		views, names := collectViews(prog, mode)
 		for _, n := range names {
@@ -143,6 +143,29 @@ func checkC01(r *core.Run) {
 			}
 			if mode == "ha" {
 				for i, f := range v.sim {
+					// OPKIND: a decoded field indexes the VM array of its own operand kind
+					for k := range v.asm {
+						a := v.asm[k]
+						if !(a.off.eq(f.off) && a.w.eq(f.w)) || a.kind == "" || a.kind == "shared" || a.kind == "number" {
+							continue
+						}
+						for _, u := range f.uses {
+							if u == "number" {
+								continue // a label built with strconv.Itoa, not an index
+							}
+							inst := fmt.Sprintf("C01/OPKIND:%s:sim%d:%s->%s", key, i, f.src, u)
+							if seen[inst] {
+								continue
+							}
+							seen[inst] = true
+							nKind++
+							if u == a.kind {
+								r.OK("C01/OPKIND", inst, prog.Pos(f.pos), "decoded "+a.kind+" field indexes the "+u+" array")
+							} else {
+								r.Violation("C01/OPKIND", inst, prog.Pos(f.pos), fmt.Sprintf("%s.Simulate uses the field %s, which the assembler fills with a %s operand, to index the VM's %s array: the simulator executes the instruction on another operand than the hardware template, which selects %s by that field", n, f, a.kind, u, a.kind))
+							}
+						}
+					}
 					nSim++
 					emit("L4", fmt.Sprintf("sim%d:%s", i, f.src), f, matchField(f, v.asm), fmt.Sprintf("%s.Simulate reads %s = %s, which is not a field the assembler writes %s: the simulator executes other operands than the hardware", n, f.src, f, fieldsString(v.asm)))
 				}
@@ -152,6 +175,7 @@ func checkC01(r *core.Run) {
 	r.Count("opcode_types", nOps)
 	r.Count("hdl_instruction_slices", nHdl)
 	r.Count("simulate_instruction_slices", nSim)
+	r.Count("operand_kind_uses", nKind)
 	c01OpNumbering(r, prog)
 	c01HwOptBookkeeping(r, prog)
 }
